@@ -37,11 +37,11 @@ CHECKS = {
             "Trusted: SimStorage durability model (applied write = durable). Crash points inside a storage call are on the simulated store only; real-backend torn writes below SQLite/LMDB are out of scope; peer convergence after restart is C01.",
             "DESIGN.md section 10 C07"),
     "C11": ("E1", "exploration",
-            "The real Clock actor with 2-8 concurrent callers under seeded virtual delays and wall-clock jumps; history (invoke/return sequence numbers) checked for distinctness, per-task monotonicity, real-time order and causality with registered remote stamps; registration floods (up to 3 000 queued registrations before a get_time). One case in ten drives the counter across the actor's back-pressure limit (65 525) without exhausting it. One case in 1 999 starts a real node and checks that the clock it hands out is the one its store stamps writes with.",
+            "The real Clock actor with 2-8 concurrent callers under seeded virtual delays and wall-clock jumps (one get_time in eight abandoned by its caller once it is queued); history (invoke/return sequence numbers) checked for distinctness, per-task monotonicity, real-time order and causality with registered remote stamps; registration floods (up to 3 000 queued registrations before a get_time). One case in ten drives the counter across the actor's back-pressure limit (65 525) without exhausting it. One case in 1 999 starts a real node and checks that the clock it hands out is the one its store stamps writes with.",
             "One OS thread: channel orders are sampled, real parallel schedules are not. Counter exhaustion and drift refusals are excluded by the generator (C09 covers them at the HLC level).",
             "DESIGN.md section 10 C11"),
     "C15": ("E1", "exploration",
-            "The real selector actor driven through its handle: all 13 056 two-step histories over layouts <= 3x3 enumerated, plus seeded longer histories with membership updates and cache expiry in virtual time; every selection judged against the installed layout, including floods of 90-260 selections in flight while the membership changes. One case in 1 999 runs the selector inside a real single node.",
+            "Watcher arm (one seeded case in five): membership snapshots through the real watch_membership_changes, nodes that keep id and address while they move between data centres. The real selector actor driven through its handle: all 13 056 two-step histories over layouts <= 3x3 enumerated, plus seeded longer histories with membership updates and cache expiry in virtual time; every selection judged against the installed layout, including floods of 90-260 selections in flight while the membership changes. One case in 1 999 runs the selector inside a real single node.",
             "Trusted: the required-count table in DESIGN.md. thread_rng replaced by the seeded hook PRNG; Instant by tokio virtual time.",
             "DESIGN.md section 10 C15"),
     "C16": ("E1", "exploration",
@@ -57,7 +57,7 @@ CHECKS = {
             "One OS thread (await-point interleavings). The handle/poller call sites are re-issued by the harness with the same statements.",
             "DESIGN.md section 10 C18"),
     "C01": ("E2", "exploration",
-            "2-5 complete nodes (real store, RPC stack over simulated TCP/HTTP2, clock, selector, membership watcher) under seeded operations and faults (holds, crash/restart, lagging/partial membership views, replayed replication messages, clock skew/jumps, storage failures/latency, cooperative delays inside repair); then constructed quiescence and the real repair path for every ordered pair in seeded order; every node's store must equal the last-writer-wins documents. One case in 8 builds every node with the public API alone (DatacakeNodeBuilder::connect + store extension) and lets the real gossip layer (vendored, virtual time, seeded) decide membership under long link holds, crashes, restarts and address moves. Further families: bursts of bulk calls with a partially failing bulk write or a never-held delete at the tail, a node joining a cluster whose stores hold more documents than one poll fetches, and a single-node arm that requires a new change timestamp whenever the advertised keyspace state changed and fetches the state (GetState) at every scheduling hop around a write: a reply carrying the finally advertised timestamp must hold the final state. Real-membership crashes may last until the faults stop (also of every node but one); such departures are judged before the nodes come back.",
+            "2-5 complete nodes (real store, RPC stack over simulated TCP/HTTP2, clock, selector, membership watcher) under seeded operations and faults (holds, crash/restart, lagging/partial membership views, replayed replication messages, clock skew/jumps, storage failures/latency, cooperative delays inside repair); then constructed quiescence and the real repair path for every ordered pair in seeded order; every node's store must equal the last-writer-wins documents. One case in 8 builds every node with the public API alone (DatacakeNodeBuilder::connect + store extension) and lets the real gossip layer (vendored, virtual time, seeded) decide membership under long link holds, crashes, restarts and address moves. Further families: late arrival (a node outside direct replication learns put+delete by its own cycles, later only the older operation is re-sent, closing by the nodes' own pollers), bursts of bulk calls with a partially failing bulk write or a never-held delete at the tail, a node joining a cluster whose stores hold more documents than one poll fetches, and a single-node arm that requires a new change timestamp whenever the advertised keyspace state changed and fetches the state (GetState) at every scheduling hop around a write: a reply carrying the finally advertised timestamp must hold the final state. Real-membership crashes may last until the faults stop (also of every node but one); such departures are judged before the nodes come back.",
             "chitchat is a stub (harness membership views) except in the real-membership family; recoverable network faults only; SimStorage; all operations within one forgiveness period (validated).",
             "DESIGN.md section 10 C01"),
     "C06": ("E2", "exploration",
